@@ -827,3 +827,56 @@ def l_c10_recover(it):
     out2 = w.call(refs.tag_object, pid, cid)
     ctx.oblige("lemma/C10/store-after-delete-succeeds", z3.BoolVal(out2[0] == "return"),
                detail=str(out2[:2]), props=("C10",))
+
+
+# ---------------------------------------------------------------------------------------------------
+# C14: the configuration is pinned
+# ---------------------------------------------------------------------------------------------------
+@lemma("C14/accept-iff-equal-configuration", ("C14",))
+def l_c14(it):
+    from contracts import init as I
+    from vc.lib2 import yaml_depth, yaml_width, yaml_algo, yaml_ns, yaml_ok, py_int, isintlit
+    ctx = it.ctx
+    I.yaml_typing(it)
+    ctx.fs0, ctx.dirs0 = ctx.st.fs, ctx.st.dirs
+    fs0, dirs0 = ctx.st.fs, ctx.st.dirs
+    props = I.props_dict(it, other=False)
+    # an existing store: the configuration file is there
+    st = z3.Select(fs0, I.YAML_LOC)
+    ctx.assume(T.present(st))
+    y = T.as_text(st)
+    s = VObj("FileHashStore")
+    ctx.spec_mode += 1
+    try:
+        try:
+            I.init(it, s, props)
+            out = ("return",)
+        except PyRaise as pr:
+            out = ("raise", pr.exc.cls)
+    finally:
+        ctx.spec_mode -= 1
+
+    def as_int(v):
+        return z3.If(v.tag == T_INT, v.i, py_int(v.s))
+
+    def convertible(v):
+        return z3.Or(v.tag == T_INT, z3.And(v.tag == T_STR, isintlit(v.s)))
+    d, wv, a, ns = (I.dget(props, k) for k in I.KEYS[1:])
+    equal = z3.And(convertible(d), convertible(wv), as_int(d) == yaml_depth(y),
+                   as_int(wv) == yaml_width(y), a.tag == T_STR, a.s == yaml_algo(y),
+                   ns.tag == T_STR, ns.s == yaml_ns(y))
+    if out[0] == "return":
+        ctx.oblige("lemma/C14/accepted-only-with-the-recorded-configuration", equal, props=("C14",))
+        ctx.oblige("lemma/C14/instance-uses-the-recorded-configuration",
+                   z3.And(s.f["depth"].term == yaml_depth(y), s.f["width"].term == yaml_width(y),
+                          dyn_str(s.f["sysmeta_ns"])[1] == yaml_ns(y)), props=("C14",))
+        x = ctx.skolem_loc()
+        ctx.oblige("lemma/C14/accepted-writes-nothing-to-an-existing-store",
+                   z3.Select(ctx.st.fs, x) == z3.Select(fs0, x), props=("C14",))
+    else:
+        ctx.oblige("lemma/C14/refused-only-on-a-difference", z3.Not(equal), detail=out[1],
+                   props=("C14",))
+        x = ctx.skolem_loc()
+        ctx.oblige("lemma/C14/refused-creates-and-modifies-nothing",
+                   z3.And(z3.Select(ctx.st.fs, x) == z3.Select(fs0, x), ctx.st.dirs == dirs0),
+                   detail=out[1], props=("C14",))
